@@ -108,7 +108,7 @@ def gen_project(rng, layout="flat", with_import=True, mutation=None):
     """{relative path: bytes or ('link', target)} of one project"""
     n1, n2 = rng.sample(["mf_build.go", "magefile.go", "targets.go", "a_mage.go", "zz_tasks.go", "Build.go"], 2)
     f = {}
-    pre = "magefiles/" if layout in ("mfdir", "both") else ""
+    pre = "magefiles/" if layout in ("mfdir", "both", "named") else ""
     extra = ""
     if mutation == "syntax-body":
         extra = "\nfunc Broken() { this is not go }\n"
@@ -283,6 +283,13 @@ def build_scenarios(rng, gen, quick):
     A(scenario("mfdir-ok", layout="mfdir"))
     A(scenario("mfdir-fail-build", layout="mfdir", plan="fail:build"))
     A(scenario("both-ok", layout="both", args=["top"]))
+    # a directory that is itself called magefiles, given with -d: no "files without the mage tag" listing pass there
+    A(scenario("named-ok", layout="named"))
+    A(scenario("named-list", layout="named", args=["-l"]))
+    A(scenario("named-fail-build", layout="named", plan="fail:build"))
+    A(scenario("named-nonmage-broken", layout="named", mutation="nonmage-broken"))
+    A(scenario("mfdir-nonmage-broken", layout="mfdir", mutation="nonmage-broken"))
+    A(scenario("named-syntax-package", layout="named", mutation="syntax-package"))
     base_ids = [s["id"] for s in S]
     # F: leftovers
     lv = leftover_variants(rng, gen, quick)
@@ -290,7 +297,7 @@ def build_scenarios(rng, gen, quick):
         A(scenario("left-%s" % label, leftover={"kind": "file", "b64": base64.b64encode(b).decode(), "label": label}, ref="ok-build"))
     on = ["go-fail:build", "keep-ok", "target-error", "mut-syntax-body", "hash-cached", "go-fail:version", "compile", "mut-type-error"]
     if not quick:
-        on = [i for i in base_ids if not i.startswith(("mfdir", "both"))]
+        on = [i for i in base_ids if not i.startswith(("mfdir", "both", "named"))]
     for bid in on:
         base = next(s for s in S if s["id"] == bid)
         for label, b in ([lv[0], lv[rng.randrange(len(lv))]] if quick else rng.sample(lv, 9) + [lv[0]]):
@@ -302,6 +309,10 @@ def build_scenarios(rng, gen, quick):
             A(scenario("left-%s@mfdir-ok/%s" % (label, where), layout="mfdir", leftover={"kind": "file", "b64": base64.b64encode(b).decode(), "label": label},
                        leftover_where=where, ref="mfdir-ok"))
     A(scenario("left-prefix:0@both-ok/both", layout="both", args=["top"], leftover={"kind": "file", "b64": "", "label": "prefix:0"}, leftover_where="both", ref="both-ok"))
+    A(scenario("left-prefix:0@named-ok/mfdir", layout="named", leftover={"kind": "file", "b64": "", "label": "prefix:0"}, leftover_where="mfdir", ref="named-ok"))
+    # with -d magefiles the START directory is not the magefile directory: a file of that name there is the user's and stays
+    A(scenario("userfile-in-start-dir@named-ok", layout="named", leftover={"kind": "file", "b64": base64.b64encode(b"package main // mine\n").decode(), "label": "user file"},
+               leftover_where="top"))
     # G: something else of that name (not "a generated file left behind": observed, modelled, kept out of the oracle)
     A(scenario("special-dir", leftover={"kind": "dir"}, special=True))
     A(scenario("special-link-helper", leftover={"kind": "link", "target": "helper.go"}, special=True))
@@ -369,7 +380,7 @@ def place_leftover(d, sc):
 
 
 def mage_args(sc, outbin):
-    a = []
+    a = ["-d", "magefiles"] if sc["layout"] == "named" else []      # Invoke is GIVEN a directory called magefiles
     if sc["keep"]:
         a.append("-keep")
     if sc["force"]:
@@ -664,6 +675,8 @@ def flags_term(sc):
 
 
 def invoke_case(sc, ob, faults, imports, tcode, gen_tok, partial_tok, lists, crash=None):
+    if sc["layout"] == "named":      # the directory Invoke is given is the sub-directory
+        ob = dict(ob, before=ob["before"]["magefiles"][1], after=ob["after"]["magefiles"][1])
     if crash is None:
         obs = "{| ob_fs := %s; ob_exit := Some %d; ob_stage := %s; ob_calls := Some %s |}" % (
             fs_term(ob["after"]), ob["rc"], stage_of(ob), coq_list([CALLS.get(e, "GVersion") for e in ob["log"]]))
@@ -671,15 +684,17 @@ def invoke_case(sc, ob, faults, imports, tcode, gen_tok, partial_tok, lists, cra
     else:
         obs = "{| ob_fs := %s; ob_exit := None; ob_stage := SAny; ob_calls := None |}" % fs_term(ob["after"])
         cr = "(Some %d)" % crash
-    return ("CInvoke {| c_world := %s; c_faults := %s; c_flags := %s; c_ohf := %s; c_crash := %s; c_fs := %s; c_obs := %s |}" % (
-        world_term(ob, imports, tcode, gen_tok, partial_tok, lists), coq_list(faults), flags_term(sc), coq_bool(sc["layout"] == "both"),
+    return ("CInvoke {| c_world := %s; c_faults := %s; c_flags := %s; c_topnamed := %s; c_ohf := %s; c_crash := %s; c_fs := %s; c_obs := %s |}" % (
+        world_term(ob, imports, tcode, gen_tok, partial_tok, lists), coq_list(faults), flags_term(sc), coq_bool(sc["layout"] == "named"),
+        coq_bool(sc["layout"] == "both"),
         cr, fs_term(ob["before"]), obs))
 
 
 # ------------------------------------------------------------------------------------------------
 # the property sentence, directly
 def main_paths(sc):
-    return {"flat": [MAIN], "mfdir": [MAIN, "magefiles/" + MAIN], "both": [MAIN, "magefiles/" + MAIN]}[sc["layout"]]
+    return {"flat": [MAIN], "mfdir": [MAIN, "magefiles/" + MAIN], "both": [MAIN, "magefiles/" + MAIN],
+            "named": ["magefiles/" + MAIN]}[sc["layout"]]   # with -d magefiles the start directory is not the magefile directory
 
 
 def oracle_run(sc, ob, gen_hashes, ref_ob):
@@ -809,6 +824,107 @@ def init_clean_cases(ctx, mage, rng, quick):
 
 
 # ------------------------------------------------------------------------------------------------
+# every COMMAND that is not a run x everything that can lie around under the generated file's name
+LEFT_SHAPES = ["none", "regular-junk", "kept-generated", "directory", "link-to-file", "link-dangling"]
+COMMANDS = ["init-absent", "init-existing", "clean", "version", "help", "bad-flag", "clean-with-words"]
+
+
+def command_cases(ctx, mage, rng, quick, gen):
+    """-init / -clean / -version / -h / rejected command lines, in the start directory or with -d sub, with a regular file,
+    a file kept by -keep, a directory or a symbolic link named mage_output_file.go lying in the start directory, in sub and in
+    the cache directory.  Everything (start directory, sub, cache, a sentinel outside) is snapshotted.
+    The model: init_cmd / clean_cmd say what may change; for the rest nothing may (CNoop)."""
+    items, info = [], []
+    root = os.path.join(ctx.tmp, "cmd")
+    os.makedirs(root)
+    n = 0
+    combos = [(c, s, dflag) for c in COMMANDS for s in LEFT_SHAPES for dflag in (False, True)]
+    if quick:
+        combos = [x for x in combos if x[1] != "none" or x[0] in ("init-absent", "clean")]
+    for cmd, shape, dflag in combos:
+        n += 1
+        top = os.path.join(root, "k%03d" % n)
+
+        def shape_files(prefix):
+            if shape == "none":
+                return {}
+            if shape == "regular-junk":
+                return {prefix + MAIN: bytes(rng.randrange(256) for _ in range(rng.choice([0, 7, 300])))}
+            if shape == "kept-generated":
+                return {prefix + MAIN: gen}
+            if shape == "directory":
+                return {prefix + MAIN + "/inner.txt": b"inner\n"}
+            if shape == "link-to-file":
+                return {prefix + MAIN: ("link", "other.go")}
+            return {prefix + MAIN: ("link", "nowhere.go")}
+        f = {"outside.txt": "sentinel %d\n" % rng.randrange(10**6),
+             "proj/other.go": b"package main\n", "proj/data.bin": bytes(rng.randrange(256) for _ in range(30)),
+             "proj/sub/other.go": b"package sub\n", "proj/sub/notes.txt": b"n\n",
+             "cache/%040x" % rng.getrandbits(160): b"binary", "cache/keepdir/x": b"x"}
+        f.update(shape_files("proj/"))
+        f.update(shape_files("proj/sub/"))
+        f.update(shape_files("cache/"))
+        target = "proj/sub/" if dflag else "proj/"
+        if cmd == "init-existing":
+            f[target + "magefile.go"] = bytes(rng.randrange(256) for _ in range(rng.choice([0, 20, 200])))
+        write_tree(top, f)
+        args = {"init-absent": ["-init"], "init-existing": ["-init"], "clean": ["-clean"], "version": ["-version"], "help": ["-h"],
+                "bad-flag": ["-nosuchflag"], "clean-with-words": ["-clean", "build"]}[cmd]
+        if dflag:
+            args = ["-d", "sub"] + args
+        b, bh = snap(top), tree_hash(top)
+        r = mage.run(os.path.join(top, "proj"), args, cache=os.path.join(top, "cache"))
+        a, ah = snap(top), tree_hash(top)
+        case = {"kind": "cmd", "command": cmd, "shape": shape, "dflag": dflag, "args": args}
+        exp = dict(bh)
+        exp_rc = 0
+        if cmd == "init-absent":
+            exp[target + "magefile.go"] = ah.get(target + "magefile.go", "missing")
+        elif cmd == "init-existing":
+            exp_rc = 1
+        elif cmd == "clean":
+            exp = {p2: v for p2, v in bh.items() if not (p2.startswith("cache/") and p2.count("/") == 1 and v != "dir")}
+        elif cmd in ("bad-flag", "clean-with-words"):
+            exp_rc = 2
+        if ah != exp or r["rc"] != exp_rc:
+            diff = sorted(k2 for k2 in set(ah) | set(exp) if ah.get(k2) != exp.get(k2))
+            ctx.violation({"kind": "oracle", "clause": "mage %s (exit %s, expected %s) may only %s; changed: %s" % (
+                " ".join(args), r["rc"], exp_rc,
+                {"init-absent": "create magefile.go", "init-existing": "fail and change nothing",
+                 "clean": "remove the non-directory entries directly inside the cache directory"}.get(cmd, "change nothing"), diff[:6]),
+                "command": cmd, "leftover": shape}, case=case)
+        # the model
+        if cmd == "clean":
+            items.append("CClean %s %s %s %d" % (coq_str("cache"), fs_term(b), fs_term(a), r["rc"] & 255))
+        elif cmd.startswith("init"):
+            def sub_of(s, path):
+                for c in [x for x in path.split("/") if x]:
+                    s = s[c][1]
+                return s
+            tb, ta = sub_of(b, target), sub_of(a, target)
+            tplb = b""
+            mp = os.path.join(top, target, "magefile.go")
+            if cmd == "init-absent" and os.path.isfile(mp):
+                tplb = open(mp, "rb").read()
+            items.append("CInit false false %s %s %s %s %d" % (coq_str(tok(tplb)), coq_str("partial"), fs_term(tb), fs_term(ta), r["rc"] & 255))
+            info.append(case)
+
+            def drop(s, path):
+                s = json.loads(json.dumps(s))
+                cur = s
+                for c in [x for x in path.split("/") if x]:
+                    cur = cur[c][1]
+                cur.pop("magefile.go", None)
+                return s
+            rb, ra = drop(b, target), drop(a, target)
+            items.append("CNoop %s %s" % (fs_term(rb), fs_term(ra)))
+        else:
+            items.append("CNoop %s %s" % (fs_term(b), fs_term(a)))
+        info.append(case)
+    return items, info
+
+
+# ------------------------------------------------------------------------------------------------
 def unitrun_list(binp, req):
     rc, out, err = sh([binp], input=(json.dumps({"op": "listprefix", "raw": req}) + "\n").encode(), timeout=1200)
     if rc != 0 or not out.strip():
@@ -820,7 +936,7 @@ MAX_REPORTED = 6
 
 
 def run(ctx):
-    ctx.prove(["Props/C09.vo", "Run/eval_C09.vo"])
+    ctx.prove(["Props/C09.vo", "Run/eval_C09.vo"], extra_props=["Compose_C09_C20"])   # + composition C09 <-> C20 (a solo invocation of Procs is Lifecycle's run: same steps, effect, status)
     import extractlib; extractlib.tables_tie(ctx, ['mainfile', 'initFile', 'MagefilesDirName'])   # literal data of the source re-proved equal to the models' (DESIGN 3.5)
     real_violation = ctx.violation
     suppressed = [0]
@@ -883,15 +999,16 @@ def run(ctx):
     def tcode_of(sc):
         if sc["mutation"] in ("syntax-package", "nonmage-broken", "no-magefiles", "syntax-body", "dupe-case", "dupe-import", "bad-import", "type-error") or sc["compile"]:
             return 0
-        key = (sc["layout"], sc["with_import"], tuple(sc["args"]), sc["fail"])
+        lay = "mfdir" if sc["layout"] == "named" else sc["layout"]      # the same package, reached by -d
+        key = (lay, sc["with_import"], tuple(sc["args"]), sc["fail"])
         if key in tcache:
             return tcache[key]
-        bkey = (sc["layout"], sc["with_import"])
+        bkey = (lay, sc["with_import"])
         if bkey not in tcache:
             wd = os.path.join(work, "bin-%s-%s" % bkey)
             os.makedirs(wd)
             d = os.path.join(wd, "proj")
-            write_tree(d, files_for(scenario("x", layout=sc["layout"], with_import=sc["with_import"])))
+            write_tree(d, files_for(scenario("x", layout=lay, with_import=sc["with_import"])))
             outb = os.path.join(wd, "static.bin")
             r = mage.run(d, ["-compile", outb], cache=os.path.join(wd, "cache"))
             if r["rc"] != 0:
@@ -908,7 +1025,7 @@ def run(ctx):
         scs = [ctx.replay["case"]["scenario"]]
         if ctx.replay["case"].get("ref_scenario"):
             scs.insert(0, ctx.replay["case"]["ref_scenario"])
-    elif ctx.replay and ctx.replay.get("case") and ctx.replay["case"].get("kind") in ("init", "clean"):
+    elif ctx.replay and ctx.replay.get("case") and ctx.replay["case"].get("kind") in ("init", "clean", "cmd"):
         scs = []
     else:
         scs = build_scenarios(rng, gen, quick)
@@ -1100,6 +1217,13 @@ def run(ctx):
         for it, inf in zip(ic_items, ic_info):
             items.append(it)
             meta.append((inf, "initclean"))
+    # ---- every other command x everything lying around under the generated file's name
+    if not ctx.replay or ctx.replay.get("case", {}).get("kind") == "cmd":
+        cm_items, cm_info = command_cases(ctx, mage, rng, quick, gen)
+        for it, inf in zip(cm_items, cm_info):
+            items.append(it)
+            meta.append((inf, "initclean"))
+        cov["command_matrix"] = {"commands": COMMANDS, "leftover_shapes": LEFT_SHAPES, "runs": len(cm_info)}
 
     ctx.log("oracle done; %d cases for the model" % len(items))
     # ---- the model on the same cases
